@@ -1,5 +1,5 @@
 """C12 - no false syntax errors: three structural necessary conditions."""
-from ..rules import tc, gr
+from ..rules import tc, gr, rxr
 
 
 def check(ctx, rep):
@@ -8,5 +8,7 @@ def check(ctx, rep):
     gr.gr_11(ctx, rep)
     gr.gr_5(ctx, rep)
     gr.gr_5_gate(ctx, rep)
+    # a literal or operator CPython reads as one token must be one token here, or a valid program gets an error node
+    rxr.rx_7_8(ctx, rep)
     rep.note('Not decided: the logic and version guards of the semantic rules in errors.py; CPython\'s verdict is not '
              'available to a static argument.')
